@@ -469,8 +469,8 @@ def vcRepeat : M Unit := do
 def isRepeatable (c : Int) (k : Int) : Bool :=
   strHas "!<>ACDIJOPRSXYacdioprsxy~" c || (c == 103 && (k == 117 || k == 85 || k == 126))
 
-/-- one iteration of the `while (!xquit)` loop of `vi()` -/
-def viStep : M Unit := do
+/-- the start of an iteration of `vi()`: register and count prefixes and the motion, if any -/
+def viPre : M (Int × Int × Int) := do
   let s0 ← get
   let nrow := s0.ed.xrow
   let noff := noeol s0 s0.ed.xrow s0.ed.xoff
@@ -483,157 +483,163 @@ def viStep : M Unit := do
   if yb == 0 then do
     let yb ← viYankbuf
     modify fun s => { s with ybuf := yb }
-  let (mv, nrow, noff) ← viMotion nrow noff
-  let cont ← (if mv > 0 then do
-      if strHas "'`GHML/?{}[]nN" mv || (mv == 37 && noff < 0) then markSave
-      setRow nrow
+  viMotion nrow noff
+
+/-- `mv > 0`: the cursor update after a motion -/
+def motionTail (mv nrow noff : Int) : M (Option Nat) := do
+  if strHas "'`GHML/?{}[]nN" mv || (mv == 37 && noff < 0) then markSave
+  setRow nrow
+  let s ← get
+  let jk := mv == 106 || mv == 107
+  let noff := if noff < 0 && !jk then indents (lines s) nrow else noff
+  let noff := if jk then col2off s nrow s.xcol else noff
+  let xoff := noeol s nrow noff
+  setOff xoff
+  if !(jk || mv == 124) then modify fun s => { s with xcol := off2col s nrow xoff }
+  if mv == 124 then modify fun s => { s with xcol := s.pcol }
+  pure (some 0)
+
+/-- `mv == 0`: a command -/
+def commandTail : M (Option Nat) := do
+  let c ← viRead
+  if c ≤ 0 then pure none else
+  let s ← get
+  markSet 94 s.ed.xrow s.ed.xoff
+  let s ← get
+  let a1 := s.arg1
+  let fin (mod : Nat) (k : Int := 0) : M (Option Nat) := do
+    let cmd ← termCmd
+    if isRepeatable c k && cmd.length + 1 < 4096 then
+      modify fun s => { s with repCmd := cmd.takeWhile (· != 0) }
+      -- rep_cmd is copied with memcpy, the register with a C string
+      modify fun s => { s with repCmd := cmd }
+      regPut 46 (cmd.takeWhile (· != 0)) 0
+    pure (some mod)
+  if c == 2 then do        -- ^B
+    if ← scrollBackward (max 1 a1 * (s.xrows - 1)) then fin 0 else
+    let s ← get
+    setOff (indents (lines s) s.ed.xrow)
+    fin VC_COL
+  else if c == 6 then do   -- ^F
+    if ← scrollForward (max 1 a1 * (s.xrows - 1)) then fin 0 else
+    let s ← get
+    setOff (indents (lines s) s.ed.xrow)
+    fin VC_COL
+  else if c == 5 then do   -- ^E
+    if ← scrollForward (max 1 a1) then fin 0 else
+    let s ← get
+    setOff (col2off s s.ed.xrow s.xcol)
+    fin 0
+  else if c == 25 then do  -- ^Y
+    if ← scrollBackward (max 1 a1) then fin 0 else
+    let s ← get
+    setOff (col2off s s.ed.xrow s.xcol)
+    fin 0
+  else if c == 21 then do  -- ^U
+    if s.ed.xrow == 0 then fin 0 else
+    if a1 != 0 then modify fun s => { s with scroll := a1 }
+    let s ← get
+    let n := if s.scroll != 0 then s.scroll else s.xrows / 2
+    setRow (max 0 (s.ed.xrow - n))
+    if s.ed.xtop > 0 then setTop (max 0 (s.ed.xtop - n))
+    let s ← get
+    setOff (indents (lines s) s.ed.xrow)
+    fin VC_COL
+  else if c == 4 then do   -- ^D
+    if s.ed.xrow == lenOf s - 1 then fin 0 else
+    if a1 != 0 then modify fun s => { s with scroll := a1 }
+    let s ← get
+    let n := if s.scroll != 0 then s.scroll else s.xrows / 2
+    setRow (min (max 0 (lenOf s - 1)) (s.ed.xrow + n))
+    if s.ed.xtop < lenOf s - s.xrows then setTop (min (lenOf s - s.xrows) (s.ed.xtop + n))
+    let s ← get
+    setOff (indents (lines s) s.ed.xrow)
+    fin VC_COL
+  else if c == 117 || c == 18 then do   -- u / ^R
+    match s.ed.lb with
+    | none => fin 0
+    | some lb =>
+      match (if c == 117 then Lbuf.undo lb else Lbuf.redo lb) with
+      | none => trap
+      | some (rc, lb') =>
+        if rc == 0 then do
+          withEd fun ed => ed.setLb lb'
+          match jump lb' 94 with
+          | some (r, o) => setPos r o
+          | none => pure ()
+          fin VC_WIN
+        else do
+          withEd fun ed => ed.setLb lb'
+          fin 0
+  else if c == 7 then do    -- ^G
+    lbufModified
+    fin 0
+  else if c == 58 then do   -- :
+    match ← viPrompt true with
+    | some ln =>
+      if ln.isEmpty then fin 0 else
+      let ln := if ln.headD 0 != 58 then 58 :: ln else ln
+      let rc ← exCommandV ln
+      regPut 58 ln 1
       let s ← get
-      let jk := mv == 106 || mv == 107
-      let noff := if noff < 0 && !jk then indents (lines s) nrow else noff
-      let noff := if jk then col2off s nrow s.xcol else noff
-      let xoff := noeol s nrow noff
-      setOff xoff
-      if !(jk || mv == 124) then modify fun s => { s with xcol := off2col s nrow xoff }
-      if mv == 124 then modify fun s => { s with xcol := s.pcol }
-      pure (some 0)
-    else if mv == 0 then do
-      let c ← viRead
-      if c ≤ 0 then pure none else
-      let s ← get
-      markSet 94 s.ed.xrow s.ed.xoff
-      let s ← get
-      let a1 := s.arg1
-      let fin (mod : Nat) (k : Int := 0) : M (Option Nat) := do
-        let cmd ← termCmd
-        if isRepeatable c k && cmd.length + 1 < 4096 then
-          modify fun s => { s with repCmd := cmd.takeWhile (· != 0) }
-          -- rep_cmd is copied with memcpy, the register with a C string
-          modify fun s => { s with repCmd := cmd }
-          regPut 46 (cmd.takeWhile (· != 0)) 0
-        pure (some mod)
-      if c == 2 then do        -- ^B
-        if ← scrollBackward (max 1 a1 * (s.xrows - 1)) then fin 0 else
-        let s ← get
-        setOff (indents (lines s) s.ed.xrow)
-        fin VC_COL
-      else if c == 6 then do   -- ^F
-        if ← scrollForward (max 1 a1 * (s.xrows - 1)) then fin 0 else
-        let s ← get
-        setOff (indents (lines s) s.ed.xrow)
-        fin VC_COL
-      else if c == 5 then do   -- ^E
-        if ← scrollForward (max 1 a1) then fin 0 else
-        let s ← get
-        setOff (col2off s s.ed.xrow s.xcol)
-        fin 0
-      else if c == 25 then do  -- ^Y
-        if ← scrollBackward (max 1 a1) then fin 0 else
-        let s ← get
-        setOff (col2off s s.ed.xrow s.xcol)
-        fin 0
-      else if c == 21 then do  -- ^U
-        if s.ed.xrow == 0 then fin 0 else
-        if a1 != 0 then modify fun s => { s with scroll := a1 }
-        let s ← get
-        let n := if s.scroll != 0 then s.scroll else s.xrows / 2
-        setRow (max 0 (s.ed.xrow - n))
-        if s.ed.xtop > 0 then setTop (max 0 (s.ed.xtop - n))
-        let s ← get
-        setOff (indents (lines s) s.ed.xrow)
-        fin VC_COL
-      else if c == 4 then do   -- ^D
-        if s.ed.xrow == lenOf s - 1 then fin 0 else
-        if a1 != 0 then modify fun s => { s with scroll := a1 }
-        let s ← get
-        let n := if s.scroll != 0 then s.scroll else s.xrows / 2
-        setRow (min (max 0 (lenOf s - 1)) (s.ed.xrow + n))
-        if s.ed.xtop < lenOf s - s.xrows then setTop (min (lenOf s - s.xrows) (s.ed.xtop + n))
-        let s ← get
-        setOff (indents (lines s) s.ed.xrow)
-        fin VC_COL
-      else if c == 117 || c == 18 then do   -- u / ^R
-        match s.ed.lb with
-        | none => fin 0
-        | some lb =>
-          match (if c == 117 then Lbuf.undo lb else Lbuf.redo lb) with
-          | none => trap
-          | some (rc, lb') =>
-            if rc == 0 then do
-              withEd fun ed => ed.setLb lb'
-              match jump lb' 94 with
-              | some (r, o) => setPos r o
-              | none => pure ()
-              fin VC_WIN
-            else do
-              withEd fun ed => ed.setLb lb'
-              fin 0
-      else if c == 7 then do    -- ^G
-        lbufModified
-        fin 0
-      else if c == 58 then do   -- :
-        match ← viPrompt true with
-        | some ln =>
-          if ln.isEmpty then fin 0 else
-          let ln := if ln.headD 0 != 58 then 58 :: ln else ln
-          let rc ← exCommandV ln
-          regPut 58 ln 1
-          let s ← get
-          if s.ed.xquit then pure none else
-          fin (if rc == 0 && ln != [58, 119] then VC_ALL else 0)
-        | none => fin 0
-      else if c == 99 || c == 100 || c == 121 || c == 33 || c == 62 || c == 60 then do
-        let m ← vcMotion c.toNat
-        fin m
-      else if c == 105 || c == 73 || c == 97 || c == 65 || c == 111 || c == 79 then do
-        let m ← vcInsert c.toNat
-        fin m
-      else if c == 74 then do let m ← vcJoin; fin m
-      else if c == 12 then fin VC_ALL
-      else if c == 109 then do
-        let m ← viRead
-        if m > 0 && 97 ≤ m && m ≤ 122 then markSet m.toNat s.ed.xrow s.ed.xoff
-        fin 0
-      else if c == 112 || c == 80 then do let m ← vcPut c.toNat; fin m
-      else if c == 122 then do
-        let k ← viRead
-        if k == 10 then do setTop (if a1 != 0 then a1 else s.ed.xrow); fin 0 k
-        else if k == 46 then do setTop (max 0 ((if a1 != 0 then a1 else s.ed.xrow) - s.xrows / 2)); fin 0 k
-        else if k == 45 then do setTop (max 0 ((if a1 != 0 then a1 else s.ed.xrow) - s.xrows + 1)); fin 0 k
-        else if k == 62 || k == 60 then do
-          let td : Int := if k == 62 then 1 else -1
-          withEd fun ed => { ed with xtd := td + (if a1 > 1 then td else 0) }
-          fin VC_WIN k
-        else if k == 101 then fin 0 k
-        else if k == 102 then do unmodelled; fin 0 k
-        else if k == 106 || k == 107 || k == 74 || k == 75 || k == 68 then do unmodelled; fin 0 k
-        else fin 0 k
-      else if c == 103 then do
-        let k ← viRead
-        if k == 126 || k == 117 || k == 85 then do let m ← vcMotion k.toNat; fin m k
-        else if k == 97 then fin 0 k
-        else if k == 100 || k == 102 || k == 108 then do unmodelled; fin 0 k
-        else fin 0 k
-      else if c == 120 then do viBack 32; let m ← vcMotion 100; fin m
-      else if c == 88 then do viBack 8; let m ← vcMotion 100; fin m
-      else if c == 67 then do viBack 36; let m ← vcMotion 99; fin m
-      else if c == 68 then do viBack 36; let m ← vcMotion 100; fin m
-      else if c == 114 then do let m ← vcReplace; fin m
-      else if c == 115 then do viBack 32; let m ← vcMotion 99; fin m
-      else if c == 83 then do viBack 99; let m ← vcMotion 99; fin m
-      else if c == 89 then do viBack 121; let m ← vcMotion 121; fin m
-      else if c == 90 then do
-        let k ← viRead
-        if k == 90 then do
-          let rc ← exCommandV (strOf "x")
-          fin (if rc == 0 then VC_WIN else 0) k
-        else fin 0 k
-      else if c == 126 then do viBack 32; let m ← vcMotion 126; fin m
-      else if c == 46 then do vcRepeat; fin 0
-      else if c == 64 then do vcExecute; fin 0
-      else if c == 26 || c == 30 || c == 29 || c == 20 || c == 23 || c == 113 then do
-        unmodelled; fin 0
-      else pure none
-    else pure (some 0))
+      if s.ed.xquit then pure none else
+      fin (if rc == 0 && ln != [58, 119] then VC_ALL else 0)
+    | none => fin 0
+  else if c == 99 || c == 100 || c == 121 || c == 33 || c == 62 || c == 60 then do
+    let m ← vcMotion c.toNat
+    fin m
+  else if c == 105 || c == 73 || c == 97 || c == 65 || c == 111 || c == 79 then do
+    let m ← vcInsert c.toNat
+    fin m
+  else if c == 74 then do let m ← vcJoin; fin m
+  else if c == 12 then fin VC_ALL
+  else if c == 109 then do
+    let m ← viRead
+    if m > 0 && 97 ≤ m && m ≤ 122 then markSet m.toNat s.ed.xrow s.ed.xoff
+    fin 0
+  else if c == 112 || c == 80 then do let m ← vcPut c.toNat; fin m
+  else if c == 122 then do
+    let k ← viRead
+    if k == 10 then do setTop (if a1 != 0 then a1 else s.ed.xrow); fin 0 k
+    else if k == 46 then do setTop (max 0 ((if a1 != 0 then a1 else s.ed.xrow) - s.xrows / 2)); fin 0 k
+    else if k == 45 then do setTop (max 0 ((if a1 != 0 then a1 else s.ed.xrow) - s.xrows + 1)); fin 0 k
+    else if k == 62 || k == 60 then do
+      let td : Int := if k == 62 then 1 else -1
+      withEd fun ed => { ed with xtd := td + (if a1 > 1 then td else 0) }
+      fin VC_WIN k
+    else if k == 101 then fin 0 k
+    else if k == 102 then do unmodelled; fin 0 k
+    else if k == 106 || k == 107 || k == 74 || k == 75 || k == 68 then do unmodelled; fin 0 k
+    else fin 0 k
+  else if c == 103 then do
+    let k ← viRead
+    if k == 126 || k == 117 || k == 85 then do let m ← vcMotion k.toNat; fin m k
+    else if k == 97 then fin 0 k
+    else if k == 100 || k == 102 || k == 108 then do unmodelled; fin 0 k
+    else fin 0 k
+  else if c == 120 then do viBack 32; let m ← vcMotion 100; fin m
+  else if c == 88 then do viBack 8; let m ← vcMotion 100; fin m
+  else if c == 67 then do viBack 36; let m ← vcMotion 99; fin m
+  else if c == 68 then do viBack 36; let m ← vcMotion 100; fin m
+  else if c == 114 then do let m ← vcReplace; fin m
+  else if c == 115 then do viBack 32; let m ← vcMotion 99; fin m
+  else if c == 83 then do viBack 99; let m ← vcMotion 99; fin m
+  else if c == 89 then do viBack 121; let m ← vcMotion 121; fin m
+  else if c == 90 then do
+    let k ← viRead
+    if k == 90 then do
+      let rc ← exCommandV (strOf "x")
+      fin (if rc == 0 then VC_WIN else 0) k
+    else fin 0 k
+  else if c == 126 then do viBack 32; let m ← vcMotion 126; fin m
+  else if c == 46 then do vcRepeat; fin 0
+  else if c == 64 then do vcExecute; fin 0
+  else if c == 26 || c == 30 || c == 29 || c == 20 || c == 23 || c == 113 then do
+    unmodelled; fin 0
+  else pure none
+
+/-- the end of an iteration: window fix, sticky column, horizontal scroll, `lbuf_modified` -/
+def viPost (cont : Option Nat) : M Unit := do
   match cont with
   | none => pure ()
   | some mod =>
@@ -649,6 +655,15 @@ def viStep : M Unit := do
     viWait
     lbufModified    -- vc_status() (ruler) when there is no message, or the one it replaces
     lbufModified
+
+
+/-- one iteration of the `while (!xquit)` loop of `vi()` -/
+def viStep : M Unit := do
+  let (mv, nrow, noff) ← viPre
+  let cont ← (if mv > 0 then motionTail mv nrow noff
+    else if mv == 0 then commandTail
+    else pure (some 0))
+  viPost cont
 
 /-- initial state of `vi()` once the file has been loaded by `ex_init` -/
 def viInit (ed : Ed) (keys : Bytes) (rows cols : Int) : VS :=
